@@ -49,6 +49,12 @@ Lemma S_r2a_valid_held_until_accepted_or_reset :
   r2a_tvalid (r2a_run DW (pre ++ [i])) = 1.
 Proof. intros DW pre i HD. apply r2a_valid_held; lia. Qed.
 
+Lemma S_r2a_reset_done_clear :
+  forall DW pre i, 1 <= DW ->
+  (b_reset i = true -> r2a_tvalid (r2a_run DW (pre ++ [i])) = 0 /\ r2a_sent (r2a_run DW (pre ++ [i])) = 0 /\ r2a_active (r2a_run DW (pre ++ [i])) = 0) /\
+  (b_done i = true -> r2a_sent (r2a_run DW (pre ++ [i])) = 0 /\ r2a_active (r2a_run DW (pre ++ [i])) = 0).
+Proof. intros DW pre i HD. split; [apply r2a_reset_clears | apply r2a_done_clears]; lia. Qed.
+
 Lemma S_r2a_valid_raised_only_by_load :
   forall DW pre i, 1 <= DW ->
   r2a_valid_now (r2a_run DW pre) = false -> r2a_tvalid (r2a_run DW (pre ++ [i])) = 1 ->
